@@ -6,7 +6,7 @@ TYPES = ["RANDOM", "ACTOR_JOIN", "ACTOR_SLEEP", "ACTOR_CREATE", "ACTOR_EXIT", "T
          "COMM_ASYNC_SEND", "COMM_IPROBE", "COMM_TEST", "COMM_WAIT", "MUTEX_ASYNC_LOCK", "MUTEX_TEST", "MUTEX_TRYLOCK", "MUTEX_UNLOCK", "MUTEX_WAIT", "MUTEX_LOCK_NOMC",
          "SEM_ASYNC_LOCK", "SEM_UNLOCK", "SEM_WAIT", "SEM_LOCK_NOMC", "CONDVAR_ASYNC_LOCK", "CONDVAR_BROADCAST", "CONDVAR_SIGNAL", "CONDVAR_WAIT", "CONDVAR_NOMC"]
 SKIP = {"TESTANY", "WAITANY", "MUTEX_LOCK_NOMC", "SEM_LOCK_NOMC", "CONDVAR_NOMC"}  # wrappers are handled by P_W; NOMC types are never evaluated by the checker
-THOROUGH_MAX = 420  # all quick shapes + a fixed strided sample of the other thorough shapes (lib/vf.py)
+THOROUGH_MAX = 300  # all quick shapes + a fixed strided sample of the other thorough shapes (lib/vf.py)
 META = {
     "level_text": "Bounded symbolic execution of the real code, two parts. (1) symmetry: Transition::dispatch_depends (look-up table + evaluation rules) on two transition "
                   "objects of concrete classes whose fields (actor ids, object ids, tags, flags) are symbolic: depends(a,b) == depends(b,a), same-actor transitions "
